@@ -80,6 +80,7 @@ type analyzer struct {
 	tracked  map[string]bool // struct names
 	syncFld  map[string]bool // "Struct.field" whose type is sync.*
 	muOwner  string          // struct that owns the mutex ("Service")
+	pkgName  string
 	accesses map[access]bool
 	calls    map[callrec]bool
 	cur      string
@@ -229,7 +230,7 @@ func (a *analyzer) expr(e ast.Node, l lk) {
 					obj = a.info.Uses[f.Sel]
 				}
 			}
-			if fn, ok := obj.(*types.Func); ok && fn.Pkg() != nil && fn.Pkg().Name() == "res" {
+			if fn, ok := obj.(*types.Func); ok && fn.Pkg() != nil && fn.Pkg().Name() == a.pkgName {
 				a.calls[callrec{a.cur, funcName(fn), l}] = true
 			}
 			return true
@@ -608,11 +609,20 @@ func (a *analyzer) sourceOrder(fd *ast.FuncDecl) []string {
 
 // ---------------------------------------------------------------- driver
 
-func writeAccess(repo, out string) error {
+type pkgResult struct {
+	a           *analyzer
+	fieldsOf    map[string][]string
+	order       map[string][]string
+	srcOrder    map[string][]string
+	entryLocked map[string]bool
+}
+
+// analyzePkg runs the access analysis over the non-test files of one package directory.
+func analyzePkg(dir, pkgName string, tracked []string, muOwner string) (*pkgResult, error) {
 	fset := token.NewFileSet()
-	ents, err := os.ReadDir(repo)
+	ents, err := os.ReadDir(dir)
 	if err != nil {
-		return err
+		return nil, err
 	}
 	var files []*ast.File
 	for _, e := range ents {
@@ -620,11 +630,11 @@ func writeAccess(repo, out string) error {
 		if e.IsDir() || !strings.HasSuffix(n, ".go") || strings.HasSuffix(n, "_test.go") || strings.HasPrefix(n, "verif_") {
 			continue
 		}
-		f, err := parser.ParseFile(fset, filepath.Join(repo, n), nil, 0)
+		f, err := parser.ParseFile(fset, filepath.Join(dir, n), nil, 0)
 		if err != nil {
-			return err
+			return nil, err
 		}
-		if f.Name.Name != "res" {
+		if f.Name.Name != pkgName {
 			continue
 		}
 		files = append(files, f)
@@ -635,10 +645,14 @@ func writeAccess(repo, out string) error {
 		Defs:       map[*ast.Ident]types.Object{},
 	}
 	conf := types.Config{Importer: &stubImporter{pkgs: map[string]*types.Package{}}, Error: func(error) {}, DisableUnusedImportCheck: true}
-	conf.Check("res", fset, files, info) // errors (unknown imported names) are expected and ignored
+	conf.Check(pkgName, fset, files, info) // errors (unknown imported names) are expected and ignored
 
-	a := &analyzer{info: info, tracked: map[string]bool{"Service": true, "work": true, "queryEvent": true},
-		syncFld: map[string]bool{}, muOwner: "Service", accesses: map[access]bool{}, calls: map[callrec]bool{}}
+	tr := map[string]bool{}
+	for _, t := range tracked {
+		tr[t] = true
+	}
+	a := &analyzer{info: info, tracked: tr, pkgName: pkgName,
+		syncFld: map[string]bool{}, muOwner: muOwner, accesses: map[access]bool{}, calls: map[callrec]bool{}}
 	// fields of sync types are internally synchronised
 	fieldsOf := map[string][]string{}
 	for _, f := range files {
@@ -758,6 +772,64 @@ func writeAccess(repo, out string) error {
 		}
 	}
 
+	return &pkgResult{a: a, fieldsOf: fieldsOf, order: order, srcOrder: srcOrder, entryLocked: entryLocked}, nil
+}
+
+func writeAccess(repo, out string) error {
+	r, err := analyzePkg(repo, "res", []string{"Service", "work", "queryEvent"}, "Service")
+	if err != nil {
+		return err
+	}
+	a, fieldsOf, order, srcOrder, entryLocked := r.a, r.fieldsOf, r.order, r.srcOrder, r.entryLocked
+	// other packages named by C16: the loggers and the BadgerDB store (struct names are qualified)
+	type ext struct {
+		dir, pkg string
+		tracked  []string
+		mu       string
+	}
+	var extAcc []access
+	extFields := map[string][]string{}
+	for _, e := range []ext{
+		{"logger", "logger", []string{"MemLogger", "StdLogger"}, "MemLogger"},
+		{"store/badgerstore", "badgerstore", []string{"Store", "QueryStore"}, ""},
+	} {
+		er, err := analyzePkg(filepath.Join(repo, e.dir), e.pkg, e.tracked, e.mu)
+		if err != nil {
+			return err
+		}
+		for k := range er.a.accesses {
+			k.strct = e.pkg + "." + k.strct
+			extAcc = append(extAcc, k)
+		}
+		for k, v := range er.fieldsOf {
+			var fs []string
+			for _, f := range v {
+				if !er.a.syncFld[k+"."+f] {
+					fs = append(fs, f)
+				}
+			}
+			extFields[e.pkg+"."+k] = fs
+		}
+	}
+	sortAcc := func(acc []access) {
+		sort.Slice(acc, func(i, j int) bool {
+			x, y := acc[i], acc[j]
+			if x.strct != y.strct {
+				return x.strct < y.strct
+			}
+			if x.field != y.field {
+				return x.field < y.field
+			}
+			if x.fn != y.fn {
+				return x.fn < y.fn
+			}
+			if x.kind != y.kind {
+				return x.kind < y.kind
+			}
+			return x.lock < y.lock
+		})
+	}
+	sortAcc(extAcc)
 	var acc []access
 	for k := range a.accesses {
 		acc = append(acc, k)
@@ -817,6 +889,31 @@ func writeAccess(repo, out string) error {
 			sep = ""
 		}
 		fmt.Fprintf(&b, "  (%q, %q, %q)%s\n", x.callee, x.caller, x.lock.String(), sep)
+	}
+	b.WriteString("]\n\n/-- the same table for the other packages C16 names: the loggers (mutex of `MemLogger`) and the\nBadgerDB store (no mutex of its own: per-id key locks and a single-consumer task queue) -/\ndef extAccesses : List (String × String × String × String × String) := [\n")
+	for i, x := range extAcc {
+		sep := ","
+		if i == len(extAcc)-1 {
+			sep = ""
+		}
+		fmt.Fprintf(&b, "  (%q, %q, %q, %q, %q)%s\n", x.strct, x.field, x.fn, x.kind, x.lock.String(), sep)
+	}
+	b.WriteString("]\n\n/-- declared fields (sync types excluded) of those structs -/\ndef extStructFields : List (String × List String) := [\n")
+	var en []string
+	for k := range extFields {
+		en = append(en, k)
+	}
+	sort.Strings(en)
+	for i, k := range en {
+		sep := ","
+		if i == len(en)-1 {
+			sep = ""
+		}
+		qs := make([]string, len(extFields[k]))
+		for j, f := range extFields[k] {
+			qs[j] = fmt.Sprintf("%q", f)
+		}
+		fmt.Fprintf(&b, "  (%q, [%s])%s\n", k, strings.Join(qs, ", "), sep)
 	}
 	b.WriteString("]\n\n/-- functions analysed as entered with the mutex held (all their call sites hold it) -/\ndef entryLocked : List String := [")
 	var el []string
